@@ -24,3 +24,7 @@ package types
 //@   ensures r1 == nil <==> sigAddrSetOK(ref(tx))
 //@   ensures r1 == nil ==> forall i int :: 0 <= i && i < len(r0) ==> sigAddrSet(ref(tx), r0[i])
 //@   ensures r1 == nil ==> forall a common.Address :: sigAddrSet(ref(tx), a) ==> exists i int :: 0 <= i && i < len(r0) && r0[i] == a
+
+//@ func AddressFromPubKey
+//@   trusted   -- provisional (C39): program hash of the single-key verification program; a function of the key
+//@   ensures result == addrOfKey(ref(pubkey))
